@@ -132,6 +132,8 @@ fn analyze(doc: &str, mods: &BTreeMap<String, String>) -> Result<Analysis, Strin
 
 #[derive(Clone, Debug)]
 pub struct Edit {
+  /// the module the range is said to lie in
+  pub module: String,
   pub sl: u32,
   pub sc: u32,
   pub el: u32,
@@ -139,9 +141,9 @@ pub struct Edit {
   pub text: String,
 }
 
-fn edits_of(v: &[(Location, String)]) -> Vec<Edit> {
+fn edits_of(heap: &Heap, v: &[(Location, String)]) -> Vec<Edit> {
   v.iter()
-    .map(|(l, t)| Edit { sl: l.start.0, sc: l.start.1, el: l.end.0, ec: l.end.1, text: t.clone() })
+    .map(|(l, t)| Edit { module: l.module_reference.pretty_print(heap), sl: l.start.0, sc: l.start.1, el: l.end.0, ec: l.end.1, text: t.clone() })
     .collect()
 }
 
@@ -265,7 +267,7 @@ pub fn run(args: &[String]) {
     let doc = case["text"].as_str().expect("case.text").to_string();
     let mods = texts_of(&case["mods"]);
     let cls = case["cls"].as_str().unwrap().to_string();
-    let mut base = json!({"id": id, "cls": cls, "exporters": case["exporters"], "text": doc});
+    let mut base = json!({"id": id, "doc_mod": DOC, "cls": cls, "exporters": case["exporters"], "text": doc});
     for k in ["layout", "src", "pred", "hist_len"] {
       if let Some(v) = case.get(k) {
         base[k] = v.clone();
@@ -343,7 +345,7 @@ pub fn run(args: &[String]) {
           for a in actions {
             let rewrite::CodeAction::Quickfix { title, edits } = a;
             let (c, m) = parse_title(&title);
-            proposals.push((format!("action@{i}"), c, m, edits_of(&edits)));
+            proposals.push((format!("action@{i}"), c, m, edits_of(&st.heap, &edits)));
           }
         }
         Err(p) => {
@@ -356,7 +358,7 @@ pub fn run(args: &[String]) {
           for it in items {
             if it.label == cls {
               // a completion item does not name the module; the specification accepts any exporter
-              proposals.push((format!("completion@{i}"), it.label.clone(), String::new(), edits_of(&it.additional_edits)));
+              proposals.push((format!("completion@{i}"), it.label.clone(), String::new(), edits_of(&st.heap, &it.additional_edits)));
             }
           }
         }
@@ -370,7 +372,7 @@ pub fn run(args: &[String]) {
       let mut rec = json!({
         "kind": kind.split('@').next().unwrap(), "site": kind.split('@').nth(1).unwrap().parse::<usize>().unwrap(),
         "named_cls": named_cls, "named_mod": named_mod,
-        "edits": edits.iter().map(|e| json!({"sl": clamp(e.sl), "sc": clamp(e.sc), "el": clamp(e.el), "ec": clamp(e.ec), "text": e.text})).collect::<Vec<_>>(),
+        "edits": edits.iter().map(|e| json!({"mod": e.module, "sl": clamp(e.sl), "sc": clamp(e.sc), "el": clamp(e.el), "ec": clamp(e.ec), "text": e.text})).collect::<Vec<_>>(),
         "syn_before": before.syntax, "unres_before": before.unresolved,
         "imports_before": before.imports.iter().map(|(m, n)| json!([m, n])).collect::<Vec<_>>(),
       });
